@@ -143,6 +143,24 @@ def LawsT (E : K → K) (tcs : List (TCpt K)) (x : Ix → Signal K) : Prop :=
   ∀ s, Regular tcs x s →
     (∀ k, k ≠ 0 → L E (kclT x k tcs) s = 0) ∧ (∀ c ∈ tcs, ∀ p ∈ lawsT x c, L E p.2 s = 0)
 
+/-- transform of one term with the delay factor `e^{−s d}` replaced by the value `w d` of an independent indeterminate
+    (one indeterminate per delay `d`; cf. the header of Spec/Signal.lean) -/
+def _root_.Lcapy.Laplace.Term.LW (w : K → K) (s : K) : Term K → K
+  | .ep c k p d => c * w d / pw (s - p) (k + 1)
+  | .dl c n d => c * pw s n * w d
+
+/-- formal unilateral transform with the delay factors as independent indeterminates;
+    `L E f s = LW (fun d => E (−s·d)) f s` (Proofs/TimeDomainInj.lean: `L_eq_LW`) -/
+def LW (w : K → K) : ExpPoly K → K → K
+  | [], _ => 0
+  | t :: f, s => t.LW w s + LW w f s
+
+/-- The time-domain laws with the delay factors as independent indeterminates: every residual has the zero transform
+    at every regular point whatever values the indeterminates take. -/
+def LawsTW (tcs : List (TCpt K)) (x : Ix → Signal K) : Prop :=
+  ∀ (w : K → K) (s : K), Regular tcs x s →
+    (∀ k, k ≠ 0 → LW w (kclT x k tcs) s = 0) ∧ (∀ c ∈ tcs, ∀ p ∈ lawsT x c, LW w p.2 s = 0)
+
 /-- the s-domain component seen at the point `s`: a source is replaced by the value of its transform -/
 def atS (E : K → K) (s : K) : TCpt K → Cpt K
   | (.V n1 n2 m _, w) => .V n1 n2 m (L E w.post s)
